@@ -58,6 +58,12 @@ pub fn gen(k: usize, n: usize, s: u64) -> Vec<u8> {
             let syms: Vec<u8> = (0..m).map(|i| (i * 91 + 5) as u8).collect();
             (0..n).map(|i| if i < m { syms[m - 1 - i] } else { syms[r.below(m as u64) as usize] }).collect()
         }
+        // m = k - 800: the alphabet of kind 100 + m with the skew reversed (same symbols, opposite frequency ranks)
+        800..=1056 => {
+            let m = (k - 800).clamp(1, 256);
+            let syms: Vec<u8> = (0..m).rev().map(|i| (i * 167 + 13) as u8).collect();
+            (0..n).map(|i| if i < m { syms[i] } else { let mut j = 0; while j + 1 < m && r.chance(1, 2) { j += 1; } syms[j] }).collect()
+        }
         // 700: random bytes; 701: two interleaved texts (order-1/2 contexts repeat); 702: long runs then noise
         700 => r.bytes(n),
         701 => { let w: [&[u8]; 4] = [b"abracadabra ", b"banana bandana ", b"\x00\xff\x00\xfe", b"zzzzzy"]; let mut d = vec![]; while d.len() < n { d.extend_from_slice(w[r.below(4) as usize]); } d.truncate(n); d }
@@ -141,7 +147,7 @@ fn hist_h0<P: ParallelVariant>(cx: &mut Cx, c: &Value) {
         let simd = match simd_cfg(&c["simd"]) { Some(cfg) => es(SimdHuffmanEncoder::with_config(&train, cfg))?, None => es(SimdHuffmanEncoder::new(&train))? };
         let pe = es(ParallelHuffmanEncoder::<P>::new(par_cfg(&c["par"])))?;
         let pd = ParallelHuffmanDecoder::<P>::new(par_cfg(&c["par"]));
-        let ad = es(AdaptiveParallelEncoder::new())?;
+        let ad = if c["ad_default"] == json!(true) { AdaptiveParallelEncoder::default() } else { es(AdaptiveParallelEncoder::new())? };
         Ok((enc, simd, pe, pd, ad))
     });
     let (enc, simd, mut pe, mut pd, mut ad) = match built {
@@ -289,6 +295,10 @@ fn hist_rans<P: RansVariant>(cx: &mut Cx, c: &Value) {
         Ok(Ok(e)) => e,
     };
     if enc.variant_name() != P::NAME { hfail(cx, &cell, c, 0, "variant_name() differs from the variant"); }
+    // the state the property names: every present symbol owns a slot, the slots fill the table exactly
+    let slots: u64 = (0..=255u8).map(|s| enc.get_symbol(s).freq as u64).sum();
+    if slots != enc.total_freq() as u64 { hfail(cx, &cell, c, 0, &format!("slots sum to {} but total_freq() = {}", slots, enc.total_freq())); }
+    if enc.total_freq() != 0 { if let Some(s) = (0..256usize).find(|&s| (f[s] > 0) != (enc.get_symbol(s as u8).freq > 0)) { hfail(cx, &cell, c, 0, &format!("symbol {}: count {} but {} slots", s, f[s], enc.get_symbol(s as u8).freq)); } }
     let mut dec = match guarded(|| Rans64Decoder::<P>::new(&enc)) { Ok(d) => d, Err(p) => { hfail(cx, &cell, c, 0, &format!("Rans64Decoder::new panicked: {}", p)); return; } };
     let ad = AdaptiveRans64Encoder::default();
     for (i, op) in ops_of(c).iter().enumerate() {
@@ -673,12 +683,23 @@ pub fn jobs(th: bool) -> Vec<JobSpec> {
         let mib = 1usize << 20;
         let ops = json!([["adapt", {"k": 5, "n": 65535, "s": 1}], ["adapt", {"k": 5, "n": 65536, "s": 2}], ["adapt", {"k": 9, "n": 70000, "s": 3}], ["adapt", {"k": 11, "n": 300, "s": 4}],
                          ["adapt", {"b": []}], ["adapt", {"b": [7]}], ["adapt", {"k": 3, "n": mib - 1, "s": 5}], ["adapt", {"k": 3, "n": mib + 1, "s": 6}], ["adapt", {"k": 5, "n": mib, "s": 7}],
-                         ["adapt", {"k": 528, "n": 5000, "s": 8}], ["adapt", {"k": 529, "n": 5000, "s": 9}], ["adapt", {"k": 3, "n": 2000, "s": 10}], ["adapt", {"k": 5, "n": 300, "s": 11}]]);
+                         ["adapt", {"k": 528, "n": 5000, "s": 8}], ["adapt", {"k": 529, "n": 5000, "s": 9}], ["adapt", {"k": 3, "n": 2000, "s": 10}], ["adapt", {"k": 5, "n": 300, "s": 11}],
+                         // the same alphabet with other frequency ranks: a model kept from an earlier payload still encodes these
+                         ["adapt", {"k": 11, "n": 500, "s": 12}], ["adapt", {"k": 108, "n": 400, "s": 13}], ["adapt", {"k": 808, "n": 400, "s": 14}], ["adapt", {"k": 108, "n": 70000, "s": 15}], ["adapt", {"k": 808, "n": 70001, "s": 16}],
+                         ["adapt", {"k": 103, "n": 1100000, "s": 17}], ["adapt", {"k": 803, "n": 1100000, "s": 18}]]);
         go(cx, json!({"run": "w_h0", "variant": 8, "train": pb(b"ab"), "simd": null, "par": {}, "ops": ops}));
+        // per size class (x2 / x4 / x8 front end): the first payload is the one a lazily trained model would stick to
+        for (n1, n2) in [(400usize, 401usize), (70000, 70001), (1100000, 1100001)] {
+            let ops = json!([["adapt", {"k": 108, "n": n1, "s": 1}], ["adapt", {"k": 808, "n": n2, "s": 2}], ["adapt", {"k": 108, "n": n2, "s": 3}], ["adapt", {"k": 103, "n": n1, "s": 4}]]);
+            go(cx, json!({"run": "w_h0", "variant": 4, "train": pb(b"ab"), "simd": null, "par": {}, "ad_default": n1 == 400, "ops": ops}));
+        }
+        // 2^20: order-0 coder, SIMD coder, parallel front end
+        go(cx, json!({"run": "w_h0", "variant": 8, "train": {"k": 11, "n": 4000, "s": 1}, "simd": {"tier": 0}, "par": {"preset": "high_throughput"},
+                      "ops": [["enc", {"k": 11, "n": (1 << 20) + 1, "s": 2}], ["simd", {"k": 11, "n": (1 << 20) + 33, "s": 3}], ["ptrain", {"k": 11, "n": 3000, "s": 4}], ["penc", {"k": 11, "n": (1 << 20) + 1, "s": 5}], ["penc", {"k": 11, "n": 3, "s": 6}]]}));
     }));
     jobs.push(job("G3", move |cx, r| {
         for i in 0..(if cx.th { 40 } else { 6 }) {
-            let ops: Vec<Value> = (0..6).map(|j| { let k = [5usize, 3, 9, 11, 700, 7, 500, 530][(i + j * 3) % 8]; let n = *r.pick(&[0usize, 1, 2, 100, 1000, 5000, 65535, 65537, 70000]); json!(["adapt", ps(r, k, n)]) }).collect();
+            let ops: Vec<Value> = (0..6).map(|j| { let k = [5usize, 3, 9, 11, 700, 7, 500, 530, 106, 806, 11, 806][(i + j * 5) % 12]; let n = *r.pick(&[0usize, 1, 2, 100, 1000, 5000, 65535, 65537, 70000]); json!(["adapt", ps(r, k, n)]) }).collect();
             go(cx, json!({"run": "w_h0", "variant": 2, "train": pb(b"x"), "simd": null, "par": {}, "ops": ops}));
         }
     }));
@@ -739,6 +760,7 @@ pub fn jobs(th: bool) -> Vec<JobSpec> {
             let ops = json!([["enc", ps(r, tk, 3000)], ["est", ps(r, tk, 100)], ["enc", ps(r, tk, 257)], ["ser"], ["enc", ps(r, 5, 1000)], ["xn", 4, 1, 1, ps(r, tk, 999)], ["xn", 8, 0, 0, ps(r, tk, if order == 1 { 65537 } else { 9 })], ["reload"], ["enc", ps(r, tk, if tk == 464 || cx.th { 65536 } else { 4097 })]]);
             go(cx, json!({"run": "w_ctx", "order": order, "train": {"k": tk, "n": tn, "s": 3}, "ops": ops}));
         }
+        go(cx, json!({"run": "w_ctx", "order": 1, "train": {"k": 701, "n": 5000, "s": 1}, "ops": [["xn", 4, 1, 0, {"k": 701, "n": (1 << 20) + 3, "s": 2}], ["enc", {"k": 701, "n": (1 << 20) + 1, "s": 3}], ["xn", 2, 0, 1, {"k": 5, "n": 77, "s": 4}]]}));
     }));
     // ---- G5: rANS objects ----
     for n in [1u64, 2, 4, 8] {
@@ -753,7 +775,7 @@ pub fn jobs(th: bool) -> Vec<JobSpec> {
                     let len = lens[(j * 3 + k) % lens.len()];
                     ops.push(json!([(["enc", "menc", "mdec", "enc", "redec", "menc"][(j + k) % 6]), ps(r, pk, len)]));
                 }
-                ops.push(json!(["enc", ps(r, tk, 65537)]));
+                ops.push(json!(["enc", ps(r, tk, if k == 1 { (1 << 20) + nn - 1 } else { 65537 })]));
                 let tn = [5000usize, 300, 4096, 70000][k % 4];
                 go(cx, json!({"run": "w_rans", "n": n, "train": {"k": tk, "n": tn, "s": k}, "ops": ops}));
             }
@@ -818,7 +840,9 @@ pub fn jobs(th: bool) -> Vec<JobSpec> {
         let kib = 1024usize;
         go(cx, json!({"run": "w_fse", "cfg": "high", "ops": [["c", {"k": 3, "n": 256 * kib, "s": 1}], ["c", {"k": 11, "n": 256 * kib + 1, "s": 2}], ["c", {"k": 6, "n": 64 * 128 * kib + 65, "s": 3}], ["c", {"k": 3, "n": 300, "s": 4}]]}));
         go(cx, json!({"run": "w_fse", "cfg": "realtime", "ops": [["c", {"k": 3, "n": 8 * kib, "s": 1}], ["c", {"k": 5, "n": 16 * kib + 1, "s": 2}], ["c", {"k": 11, "n": 64 * kib + 1, "s": 3}]]}));
-        go(cx, json!({"run": "w_fse", "cfg": "default", "ops": [["c", {"k": 5, "n": 128 * kib + 1, "s": 1}], ["c", {"k": 8, "n": 64 * kib, "s": 2}], ["dreset"], ["c", {"k": 3, "n": 64 * kib - 1, "s": 3}]]}));
+        go(cx, json!({"run": "w_fse", "cfg": "par4_bs100", "ops": [["c", {"k": 11, "n": 1024 * kib + 1, "s": 1}], ["c", {"k": 3, "n": 6400, "s": 2}], ["c", {"k": 3, "n": 6401, "s": 3}]]}));
+        go(cx, json!({"run": "w_lz", "which": 1, "min": 3, "max": 258, "window": 32768, "train": {"k": 700, "n": 100, "s": 1}, "ops": [["c", {"k": 13, "n": 1024 * kib + 1, "s": 1}], ["c", {"k": 11, "n": 300, "s": 2}]]}));
+        go(cx, json!({"run": "w_fse", "cfg": "default", "ops": [["c", {"k": 5, "n": 1024 * kib + 1, "s": 1}], ["c", {"k": 8, "n": 64 * kib, "s": 2}], ["dreset"], ["c", {"k": 3, "n": 64 * kib - 1, "s": 3}]]}));
     }));
     // ---- G7: FseTable symbol-level API and the normaliser as a public function ----
     jobs.push(job("G7", move |cx, r| {
